@@ -79,7 +79,7 @@ OPERANDS = {
     'list-ok': [1.0, 2.0, 3.0], 'list-short': [1.0, 2.0], 'list-long': [1.0, 2.0, 3.0, 4.0], 'tuple-ok': (4, 5, 6), 'range-ok': range(3),
     'nested-ok-outer': [[1, 2], [3, 4], [5, 6]], 'nested-bad': [[1, 2, 3], [4, 5, 6]], 'nested-size-n-col': [[1], [2], [3]], 'nested-size-n-row': [[1, 2, 3]],
     'np-ok': np.array([7.0, 8.0, 9.0]), 'np-short': np.array([1.0]), 'np-2d': np.ones((3, 2)), 'np-int-ok': np.array([1, 2, 3]),
-    'list-str-ok': ['a', 'b', 'c'],
+    'list-str-ok': ['a', 'b', 'c'], 'tuple-str-ok': ('ab', 'cd', 'ef'), 'list-bool-ok': [True, False, True],
 }
 
 
@@ -148,6 +148,15 @@ class Histories(BoundedCheck):
         for target in ('container', 'model'):
             for hist in itertools.product(strict_ops, repeat=3):
                 yield {'target': target, 'ops': list(hist)}
+        # objects constructed with strict=True (the switch itself must stay operable), and string series assigned from sequences
+        for target in ('container-strict', 'model-strict'):
+            for hist in itertools.product(strict_ops, repeat=2):
+                yield {'target': target, 'ops': list(hist)}
+        str_ops = [('setattr', 'T', 'list-str-ok'), ('setitem', 'T', 'tuple-str-ok'), ('setattr', 'T', 'str'), ('setlabel', 'T', 1, 'str'), ('replace_values', 'T', 'list-str-ok'),
+                   ('setattr', 'status', 'list-str-ok'), ('setattr', 'I', 'list-ok'), ('setattr', 'K', 'list-bool-ok'), ('add_variable', 'K', 'bool')]
+        for target in ('container', 'model'):
+            for hist in itertools.product(str_ops, repeat=2):
+                yield {'target': target, 'ops': list(hist)}
         rnd = random.Random(seed + 77)
         if tier == 'thorough':
             for a, b, c_ in itertools.product(ops, repeat=3):
@@ -159,8 +168,10 @@ class Histories(BoundedCheck):
     @staticmethod
     def make(target):
         import fsic
+        strict = target.endswith('-strict')
+        target = target.replace('-strict', '')
         if target == 'container':
-            c = fsic.core.VectorContainer(range(10, 10 + N))
+            c = fsic.core.VectorContainer(range(10, 10 + N), strict=strict)
             c.add_variable('A', 1.0)
             c.add_variable('I', 2)
             c.add_variable('T', 'ab')
@@ -170,8 +181,9 @@ class Histories(BoundedCheck):
             ENDOGENOUS = ['A']
             EXOGENOUS = ['X']
             NAMES = ENDOGENOUS + EXOGENOUS
-        m = M(range(10, 10 + N))
+        m = M(range(10, 10 + N), strict=strict)
         m.add_variable('I', 2, dtype=int)
+        m.add_variable('T', 'ab', dtype='<U2')
         return m
 
     def check(self, case, res: BoundedResult):
@@ -195,6 +207,9 @@ class Histories(BoundedCheck):
                 raised = ex
             after = snapshot(c)
             here = dict(jcase, step=step)
+            if raised is not None and op[0] == 'strict':
+                out.append(Violation('the strict switch itself can always be set (with strict=True updates of existing names keep working)', 'c09.strict-switch-blocked', here,
+                                     'accepted', f'{type(raised).__name__}: {raised}'[:80]))
             if raised is not None:
                 res.cover('raised-unchanged')
                 multi = op[0] in ('values',)     # bulk replacement may have replaced earlier rows before failing (single-variable clause only)
@@ -319,7 +334,14 @@ class LabelAccess(BoundedCheck):
         # absent labels, including hashable containers: a tuple is one label (it must not be matched element by element against the span)
         tuple_absent = [('__absent__', 1), (labels[0],), tuple(['__x__'] + [x for x in labels[1:]])]
         tuple_absent = [x for x in tuple_absent if all(not (isinstance(lab, tuple) and lab == x) for lab in labels)]
-        for absent in ['__absent__', 99999, -99999, 3.75] + tuple_absent:
+        near = []
+        for lab in labels[:2]:
+            if isinstance(lab, (int, np.integer)) and not isinstance(lab, bool):
+                near += [float(lab) + 0.5, str(int(lab))]          # a number between two labels; the label's text
+            elif isinstance(lab, str) and lab:
+                near += [lab + 'x', lab[:-1] + ' ']                  # a longer string with the label as prefix; same length, other text
+        near = [x for x in near if all(not (type(x) is type(lab) and x == lab) and not (isinstance(x, float) and isinstance(lab, (int, float)) and not isinstance(lab, bool) and x == lab) for lab in labels)]
+        for absent in ['__absent__', 99999, -99999, 3.75] + near + tuple_absent:
             res.cover('absent')
             before = c.X.copy()
             for what, fn in (('get', lambda: c['X', absent]), ('set', lambda: c.__setitem__(('X', absent), 1.0)),
@@ -439,6 +461,7 @@ class CopyIndependence(BoundedCheck):
         class Mixed(AliasMixin, TracerMixin, Model):
             ALIASES = {'GDP': 'Y', 'cons': 'C'}
             PREFERRED_NAMES = ['GDP']
+            TRACE_VARIABLES = ['Y', 'C']
         return Mixed(list(range(5)), G=1.0, a=0.5), Mixed
 
     @staticmethod
@@ -483,6 +506,7 @@ class CopyIndependence(BoundedCheck):
                      ('submodel-add', lambda o: o.submodels['A'].add_variable('N2', 1.0))]
         if kind == 'mixin':
             muts += [('aliases', lambda o: o.aliases.__setitem__('inc', 'Y')), ('preferred', lambda o: o.preferred_names.append('cons')),
+                     ('trace-names', lambda o: (o.solve_t(1, trace=True, failures='ignore', max_iter=2), o.trace[1].names.append('zz'))),
                      ('traced-solve', lambda o: o.solve_t(2, trace=True, failures='ignore', max_iter=3))]
         return muts
 
@@ -544,7 +568,7 @@ class CopyIndependence(BoundedCheck):
                     out.append(Violation('a copy is an object of the same class', 'c11.class', jcase, type(obj).__name__, type(other).__name__))
                 if self.observe(other) != self.observe(obj):
                     out.append(Violation('a copy is observationally equal to the original', 'c11.not-equal', jcase, 'equal', 'different'))
-            keys = ('ENDOGENOUS', 'EXOGENOUS', 'NAMES', 'CHECK', 'ALIASES', 'PREFERRED_NAMES')
+            keys = ('ENDOGENOUS', 'EXOGENOUS', 'NAMES', 'CHECK', 'ALIASES', 'PREFERRED_NAMES', 'TRACE_VARIABLES')
             classes = [c_ for c_ in type(obj).__mro__ if c_ is not object]
 
             def class_state():
